@@ -53,6 +53,12 @@ func origin(fn *core.FuncInfo, e ast.Expr, depth int) string {
 			var outs []string
 			for _, d := range defs {
 				if d.idx >= 0 {
+					if c, ok := ast.Unparen(d.rhs).(*ast.CallExpr); ok {
+						if through, ok := originThroughHelper(fn, c, d.idx, depth-1); ok {
+							outs = append(outs, through)
+							continue
+						}
+					}
 					outs = append(outs, origin(fn, d.rhs, depth-1)+"#"+string(rune('0'+d.idx)))
 				} else if d.rng {
 					outs = append(outs, "range("+origin(fn, d.rhs, depth-1)+")")
@@ -227,4 +233,112 @@ func findCompositeLit(fn *core.FuncInfo, e ast.Expr) *ast.CompositeLit {
 		}
 	}
 	return nil
+}
+
+var originBusy = map[*types.Func]bool{}
+
+// originFollowHelpers: set by the rules that want multi-result helpers looked through (opt-in: other rules
+// recognise helpers by what they are).
+var originFollowHelpers bool
+
+// originThroughHelper: the call goes to a small helper of the same package (a body, every return hands back the same
+// thing for result idx): the value's origin is what the helper returns, with the helper's parameters replaced by
+// the origins of the arguments. This keeps value-origin rules indifferent to extract-function refactorings.
+// Only helpers that themselves build the value from other calls/parameters are looked through — a helper whose
+// return for idx is a literal, a composite literal or anything mentioning its own locals beyond one level stays opaque.
+func originThroughHelper(fn *core.FuncInfo, call *ast.CallExpr, idx int, depth int) (string, bool) {
+	if curWorld == nil || depth <= 0 || !originFollowHelpers {
+		return "", false
+	}
+	callee := core.Callee(fn.Pkg.TypesInfo, call)
+	h := curWorld.Info(callee)
+	if h == nil || h.Pkg != fn.Pkg || h.Decl.Body == nil || originBusy[callee] || h == fn {
+		return "", false
+	}
+	sig := callee.Type().(*types.Signature)
+	if sig.Variadic() || idx >= sig.Results().Len() {
+		return "", false
+	}
+	// only multi-result helpers or helpers whose single result is produced by a further call are looked through:
+	// builders (one result, composite literal inside) are what the rules want to see by name
+	var rets []string
+	originBusy[callee] = true
+	okAll := true
+	ast.Inspect(h.Decl.Body, func(n ast.Node) bool {
+		if _, isLit := n.(*ast.FuncLit); isLit {
+			return false
+		}
+		rs, ok := n.(*ast.ReturnStmt)
+		if !ok {
+			return true
+		}
+		if len(rs.Results) != sig.Results().Len() {
+			okAll = false // bare return / forwarded multi-value call
+			return true
+		}
+		e := rs.Results[idx]
+		if id, ok := ast.Unparen(e).(*ast.Ident); ok {
+			if _, isNil := h.Pkg.TypesInfo.Uses[id].(*types.Nil); isNil {
+				return true // error-path zero value
+			}
+		}
+		if cl, ok := ast.Unparen(e).(*ast.CompositeLit); ok && len(cl.Elts) == 0 {
+			return true // zero value on an error path
+		}
+		rets = append(rets, origin(h, e, depth))
+		return true
+	})
+	delete(originBusy, callee)
+	rets = uniq(rets)
+	if !okAll || len(rets) != 1 || !strings.HasPrefix(rets[0], "call:") {
+		return "", false
+	}
+	out := rets[0]
+	// substitute parameters (longest names first so that 'ctx' does not eat 'ctx2')
+	ps := paramObjs(h)
+	type sub struct{ from, to string }
+	var subs []sub
+	for i, p := range ps {
+		if i < len(call.Args) {
+			subs = append(subs, sub{"param:" + p.Name(), origin(fn, call.Args[i], depth)})
+		}
+	}
+	if sig.Recv() != nil {
+		if sel, ok := ast.Unparen(call.Fun).(*ast.SelectorExpr); ok && h.Decl.Recv != nil && len(h.Decl.Recv.List) > 0 && len(h.Decl.Recv.List[0].Names) > 0 {
+			subs = append(subs, sub{"param:" + h.Decl.Recv.List[0].Names[0].Name, origin(fn, sel.X, depth)})
+		}
+	}
+	sort.Slice(subs, func(i, j int) bool { return len(subs[i].from) > len(subs[j].from) })
+	// two-step replacement through placeholders, so that substituted text is not substituted again
+	for i, sb := range subs {
+		out = replaceToken(out, sb.from, "\x00"+string(rune('A'+i))+"\x00")
+	}
+	for i, sb := range subs {
+		out = strings.ReplaceAll(out, "\x00"+string(rune('A'+i))+"\x00", sb.to)
+	}
+	return out, true
+}
+
+// replaceToken replaces from where it is not followed by an identifier character.
+func replaceToken(s, from, to string) string {
+	var b strings.Builder
+	for {
+		i := strings.Index(s, from)
+		if i < 0 {
+			b.WriteString(s)
+			return b.String()
+		}
+		end := i + len(from)
+		if end < len(s) {
+			c := s[end]
+			if c == '_' || c >= '0' && c <= '9' || c >= 'a' && c <= 'z' || c >= 'A' && c <= 'Z' {
+				b.WriteString(s[:end])
+				s = s[end:]
+				continue
+			}
+		}
+		b.WriteString(s[:i])
+		b.WriteString(to)
+		s = s[end:]
+	}
 }
